@@ -111,4 +111,22 @@ def storePrepShape : List Bytes := [
   b!"if etag:=h.Get(\"etag\"); (len(etag)>0) {h.Set(\"etag\",util.StripETagSuffix(etag))}",
   b!"sw.responseHeader=util.DenyHeaders(h,{HeaderRrrouterCacheStatus})" ]
 
+/-- C19: the body of the `configReloader` loop, statement by statement (log calls abbreviated),
+    in the order `Model.Config.step` mirrors: fetch · checksum compare · ParseRules · SetRules ·
+    ParseStorageConfigs · SetStorageConfigs · checksum store; every error `continue`s. -/
+def reloadSteps : List Bytes := [
+  b!"<-c",
+  b!"mappingData,err:=readMapping(gMappingURL,gMappingFile)",
+  b!"if (err!=nil) {logger.Errorf(...);continue}",
+  b!"mc:=util.SHA1String(mappingData)",
+  b!"if (gMappingChecksum==mc) {continue}",
+  b!"rules,err:=proxy.ParseRules(mappingData,logger)",
+  b!"if (err!=nil) {logger.Errorf(...);continue}",
+  b!"router.SetRules(rules)",
+  b!"cfgs,err:=caching.ParseStorageConfigs(mappingData)",
+  b!"if (err!=nil) {logger.Errorf(...);continue}",
+  b!"cache.SetStorageConfigs(cfgs)",
+  b!"gMappingChecksum=util.SHA1String(mappingData)",
+  b!"logger.Infof(...)" ]
+
 end Spec
